@@ -211,6 +211,17 @@ fn run_gated(tracer: &Tracer, rng: &mut StdRng, scenario: &str, tag: Value) {
             }
         }
     })));
+    if scenario == "fresh_writer_delete" {
+        // the first operation after a rollback / re-open is an uncommitted delete: a merge of the
+        // committed segments must not apply it (the repaired defect F0)
+        if rng.random_bool(0.5) {
+            w.exec(&json!({"op":"rollback"}));
+        } else {
+            w.exec(&json!({"op":"drop_writer"}));
+            w.exec(&json!({"op":"new_writer"}));
+        }
+        w.exec(&json!({"op":"del","pred":{"k":"term","t":pick(rng, &["a","b"])}}));
+    }
     // start the merge without waiting for it
     let ids = w.index.searchable_segment_ids().unwrap_or_default();
     let fut = w.writer.as_mut().map(|wr| wr.merge(&ids));
@@ -239,6 +250,9 @@ fn run_gated(tracer: &Tracer, rng: &mut StdRng, scenario: &str, tag: Value) {
             w.exec(&json!({"op":"delete_all"}));
             w.exec(&json!({"op":"add","id":n0 + 1,"t":"b","v":0}));
             w.exec(&json!({"op":"commit"}));
+        }
+        "fresh_writer_delete" => {
+            w.exec(&json!({"op":"add","id":n0 + 1,"t":"c","v":0}));
         }
         _ => {
             w.exec(&json!({"op":"del","pred":{"k":"id","id":1}}));
@@ -279,7 +293,7 @@ fn main() {
             }
         }
         "gated" => {
-            let scen = ["delete_commit", "rollback", "delete_all_commit", "two_commits"];
+            let scen = ["delete_commit", "rollback", "delete_all_commit", "two_commits", "fresh_writer_delete"];
             for r in 0..runs {
                 let s = scen[(r as usize) % scen.len()];
                 run_gated(&tracer, &mut rng, s, json!({"seed":seed,"run":r,"scenario":s}));
